@@ -120,6 +120,12 @@ func (e *Enc) external(cur *cursor, v ssa.Value, callee *ssa.Function, args []Va
 		set(fmt.Sprintf("(isdigit %s)", at(0)))
 	case "unicode.IsLetter":
 		set(fmt.Sprintf("(isletter %s)", at(0)))
+	case "regexp.MustCompile":
+		// panics on an invalid pattern
+		e.safety(cur, "mustcompile", fmt.Sprintf("(re_ok %s)", at(0)), pos, "regexp.MustCompile panics on an invalid pattern")
+		re := e.allocAddr(cur)
+		e.assume(cur.guard, fmt.Sprintf("(= (re_pat %s) %s)", re, at(0)))
+		set(re)
 	case "regexp.Compile":
 		re := e.allocAddr(cur)
 		errT := e.fresh("reerr", "Any")
